@@ -1665,6 +1665,186 @@ def limit_closed_check(res, prop, n, allow_racy=True):
                 limit_closed_mismatches=len(codes))
 
 
+HEADER_PARTS = '''From Coq Require Import ZArith List Bool.
+From BV Require Import Lib.Cases Model.Pool Model.PoolSys Model.PoolParts.
+Import ListNotations. Open Scope Z_scope.
+Definition check_case := PoolParts.check_parts_case.'''
+
+
+def pstep_coq(st):
+    k = st[0]
+    if k == 'submit':
+        return 'PSubmit'
+    if k == 'feed':
+        return 'PFeed'
+    if k == 'take':
+        return '(PTake %d%%nat)' % st[1]
+    if k == 'finish':
+        return '(PFinish %d%%nat)' % st[1]
+    if k == 'recv':
+        return 'PRecv'
+    if k == 'next':
+        return '(PNext %s)' % cz(st[1])
+    raise ValueError(st)
+
+
+def pcall_coq(c):
+    if c[0] == 'apply':
+        return 'CApply'
+    if c[0] == 'map':
+        return '(CMap %d%%nat %d%%nat)' % (c[1], c[2])
+    if c[0] == 'imap':
+        return '(CIMap %d%%nat)' % c[1]
+    return '(CIMapU %d%%nat)' % c[1]
+
+
+def parts_closed_check(res, prop, n):
+    """the crash-free closed composition for MULTI-PART jobs (coq/Model/PoolParts.v): random calls
+    (apply / map_async with a chunk size / imap / imap_unordered, some parts raising), one pass of
+    the REAL task handler at a time, workers taking the parts in pipe order and completing them in
+    any order, the real result handler, a consumer calling next() whenever it would not block.
+    The model must allow every step, issue the same parent events, agree on being finished and on
+    every observation (`<prop>:parts-closed-system-differs`).  Monitors on the implementation's
+    own observations: a map job's value is not the list a sequential map gives / resolves before
+    its last part / callbacks not exactly once / does not fail with the first failing part handled;
+    imap does not yield the items in input order with the error at the failing item's position;
+    imap_unordered does not yield the multiset in arrival order; StopIteration before all items;
+    a complete end with something unresolved or an iterator not drained."""
+    rng = random.Random(res.seed * 9973 + sum(map(ord, prop)) + 41)
+    reqs = []
+    for k in range(n):
+        cfg = dict(n=rng.choice([1, 2, 2, 3, 4]), putlocks=rng.random() < 0.3)
+        calls = []
+        for _ in range(rng.choice([1, 1, 2, 3, 4])):
+            kind = rng.choice(['apply', 'map', 'map', 'imap', 'imap', 'imapu'])
+            if kind == 'apply':
+                calls.append(['apply'])
+            elif kind == 'map':
+                calls.append(['map', rng.choice([0, 1, 2, 3, 5, 7]), rng.choice([1, 1, 2, 3])])
+            else:
+                calls.append([kind, rng.choice([0, 1, 2, 3, 5])])
+        bad = []
+        if rng.random() < 0.5:
+            for j, c in enumerate(calls):
+                if c[0] == 'apply':
+                    np_ = 1
+                elif c[0] == 'map':
+                    np_ = 0 if c[1] == 0 else (c[1] + c[2] - 1) // c[2]
+                else:
+                    np_ = c[1]
+                for i in range(np_):
+                    if rng.random() < 0.25:
+                        bad.append([j, None if c[0] == 'apply' else i])
+        spec = dict(seed=rng.randrange(1 << 30), calls=calls, bad=bad, stop_after=rng.choice([40, 150, 600, 600]))
+        reqs.append(dict(cfg=cfg, parts=spec))
+    outs = []
+    for part in core.chunks(reqs, 200):
+        outs += run_impl(part, timeout=600)
+    terms = []
+    steps = nmax = nparts = nnext = 0
+
+    def alarm(sig, what, r, o):
+        res.alarms.append(dict(signature=sig, what='closed system with multi-part jobs: ' + what,
+                               replay=dict(kind='pool-closed', cfg=r['cfg'], parts=r['parts'], sched=o['sched'],
+                                           events=o['events'])))
+
+    def cpart(b):
+        return '(%s, %s)' % (cz(b[0]), copt(b[1]))
+
+    for r, o in zip(reqs, outs):
+        sp = r['parts']
+        calls = sp['calls']
+        bad = set((b[0], b[1]) for b in sp['bad'])
+        steps += len(o['sched'])
+        nmax += bool(o['maximal'])
+        nnext += len(o['nexts'])
+        terms.append('((%s, %s, %s, %s, %s, %s, %s) : PoolParts.parts_case)' % (
+            cfg_coq(r['cfg']), clist(calls, pcall_coq), clist(sp['bad'], cpart),
+            clist(o['sched'], pstep_coq), clist(o['events'], ev_coq), clist(o['obs'], obs_coq), cbool(o['maximal'])))
+        # ---- monitors
+        handled = {}                       # job -> list of (index, ok) in the order the parent handled them
+        first_ready = {}                   # job -> index of the event after which it was first seen ready
+        for i, (e, ob) in enumerate(zip(o['events'], o['obs'])):
+            if e[0] == 'ready':
+                handled.setdefault(e[1], []).append((e[2], bool(e[3])))
+                nparts += 1
+            for k, j in enumerate(ob['jobs']):
+                if j['ready'] and k not in first_ready:
+                    first_ready[k] = i
+        last = o['obs'][-1] if o['obs'] else None
+        for k, c in enumerate(calls):
+            if last is None or k >= len(last['jobs']):
+                continue
+            j = last['jobs'][k]
+            hd = handled.get(k, [])
+            if c[0] == 'map':
+                n_, cs = c[1], c[2]
+                nc = 0 if n_ == 0 else (n_ + cs - 1) // cs
+                fails = [ix for ix, ok in hd if not ok]
+                if j['ready']:
+                    # when did it resolve: with the first failing part handled, else with the last part
+                    seen = 0
+                    want_at = None
+                    for i, e in enumerate(o['events']):
+                        if e[0] == 'ready' and e[1] == k:
+                            seen += 1
+                            if not e[3] or seen == nc:
+                                want_at = i
+                                break
+                    if nc and first_ready.get(k) != want_at:
+                        alarm(prop + ':map-job-resolved-at-the-wrong-moment',
+                              'map job %d (%d parts) is ready after event %s, expected after event %s' % (k, nc, first_ready.get(k), want_at), r, o)
+                    if fails:
+                        if j['val'] != ['exc', k * 100 + fails[0]] or j['cb'][:2] != [0, 1]:
+                            alarm(prop + ':map-failure-not-the-first-failing-part',
+                                  'map job %d: first failing part handled %d, job shows %s callbacks %s' % (k, fails[0], j['val'], j['cb'][:2]), r, o)
+                    else:
+                        want = []
+                        for ix in range(nc):
+                            want += [k * 100 + ix] * max(0, min(cs, n_ - ix * cs))
+                        if j['val'] != ['ok', want] or j['cb'][:2] != [(1 if nc else 0), 0]:      # an empty map is born resolved: no callback (C01_empty_map)
+                            alarm(prop + ':map-value-not-the-sequential-list',
+                                  'map job %d (n=%d chunk %d, parts handled in order %s): value %s callbacks %s, sequential %s' % (
+                                      k, n_, cs, [ix for ix, _ in hd], j['val'], j['cb'][:2], want), r, o)
+                elif o['maximal']:
+                    alarm(prop + ':job-unresolved-when-nothing-failed', 'map job %d unresolved at a complete end' % k, r, o)
+            elif c[0] in ('imap', 'imapu'):
+                got = [x[1] for x in o['nexts'] if x[0] == k]
+                body = [g for g in got if g and g[0] != 'stop']
+                if c[0] == 'imap':
+                    want = [(['item', k * 100 + ix] if (k, ix) not in bad else ['raised', ['exc', k * 100 + ix]]) for ix in range(c[1])]
+                    if body != want[:len(body)]:
+                        alarm(prop + ':imap-items-out-of-input-order', 'imap job %d yielded %s, input order is %s' % (k, body, want), r, o)
+                else:
+                    arrival = [(['item', k * 100 + ix] if ok else ['raised', ['exc', k * 100 + ix]]) for ix, ok in hd]
+                    if body != arrival[:len(body)]:
+                        alarm(prop + ':imap-unordered-not-the-multiset-in-arrival-order',
+                              'imap_unordered job %d yielded %s, arrival order is %s' % (k, body, arrival), r, o)
+                if ['stop'] in got and (got.index(['stop']) != c[1] or len(got) != c[1] + 1):
+                    alarm(prop + ':stop-iteration-before-all-items', 'iterator %d (%d items) returned %s' % (k, c[1], got), r, o)
+                if o['maximal'] and got[-1:] != [['stop']]:
+                    alarm(prop + ':iterator-not-drained-at-a-complete-end', 'iterator %d returned %s' % (k, got), r, o)
+            else:
+                if j['ready']:
+                    isbad = (k, None) in bad
+                    if j['val'] != (['exc', k * 100] if isbad else ['ok', k * 100]) or j['cb'][:2] != ([0, 1] if isbad else [1, 0]):
+                        alarm(prop + ':apply-job-wrong-outcome', 'apply job %d: %s callbacks %s' % (k, j['val'], j['cb'][:2]), r, o)
+                elif o['maximal']:
+                    alarm(prop + ':job-unresolved-when-nothing-failed', 'apply job %d unresolved at a complete end' % k, r, o)
+    codes, _ = core.coq_eval(prop + 'parts', HEADER_PARTS, core.chunks(terms, 20), timeout=900)
+    for i, code in codes:
+        r, o = reqs[i], outs[i]
+        what = {7001: 'the implementation took a step that is not enabled in the model',
+                7002: 'the parent events issued differ from the model\'s for this schedule',
+                7003: 'the implementation has nothing left to do where the model has',
+                7004: 'the model has nothing left to do where the implementation has'}.get(code, 'observation differs at event %d' % (code - 1000))
+        alarm(prop + ':parts-closed-system-differs', 'Model/PoolParts.v vs billiard.pool: ' + what, r, o)
+        if len(res.alarms) > 20:
+            break
+    res.add_cov(parts_closed_schedules=len(reqs), parts_closed_steps=steps, parts_closed_complete=nmax,
+                parts_closed_parts_handled=nparts, parts_closed_next_calls=nnext, parts_closed_mismatches=len(codes))
+
+
 def shrink_history(pid, case, sig, rounds=40):
     """greedy one-event-removal minimisation of a history that triggers alarm `sig` on the
     implementation (every round: all one-event-shorter candidates in ONE driver run)"""
